@@ -6,6 +6,7 @@ package c07
 import (
 	"bytes"
 	"fmt"
+	"io"
 	"testing"
 
 	"github.com/tjfoc/gmsm/gmtls"
@@ -26,7 +27,7 @@ func TestMain(m *testing.M) {
 	for _, k := range []string{"bitflip", "truncate", "extend", "hdr_type", "hdr_version", "hdr_len", "drop", "duplicate", "swap", "replay_other_dir", "replay_preccs", "replay_other_conn", "cut", "pad_valid", "pad_corrupt", "oversize_plain"} {
 		R.Require("fault:" + k)
 	}
-	R.Require("long_session", "padmax:255", "padmax:240", "suite:e013", "suite:e053", "dir:c2s", "dir:s2c", "control_tls12", "padlen_all_16", "bitflip_exhaustive_done")
+	R.Require("short_reading_rand", "write_failure_then_close", "long_session", "padmax:255", "padmax:240", "suite:e013", "suite:e053", "dir:c2s", "dir:s2c", "control_tls12", "padlen_all_16", "bitflip_exhaustive_done")
 	hx.Main(m, R)
 }
 
@@ -645,5 +646,162 @@ func TestC07_PaddingLengths(t *testing.T) {
 			runFault(t, sess{Suite: tlsx.GMECCSM4CBCSM3, C2S: plen%2 == 1, Writes: w}, fault{Kind: "pad_corrupt", Index: 4, Pad: maxPad, K: pos}, fmt.Sprintf("pcm%d_%d", plen, pos))
 		}
 		R.Case(true, hx.HashKey("padmax", plen), "fault:pad_corrupt", fmt.Sprintf("padmax:%d", maxPad))
+	}
+}
+
+// a transport write that fails half-way, followed by whatever the sender still emits (the close_notify of Close): the
+// explicit nonces seen on the wire - including the one of the record that was cut - must all be different, i.e. a
+// sequence number is never used for two records (GCM: nonce reuse under one key)
+func TestC07_WriteFailureThenClose(t *testing.T) {
+	for i := 0; i < hx.N(12, 200); i++ {
+		c2s := i%2 == 0
+		okWrites := 1 + i%3
+		hub := wire.NewHub()
+		cw, sw := hub.Pipe("client:1", "server:443")
+		ccfg, scfg := configs(sess{Suite: tlsx.GMECCSM4GCMSM3}, fmt.Sprint("wf", i))
+		cli, srv := gmtls.Client(cw, ccfg), gmtls.Server(sw, scfg)
+		snd, rcv, sndW := cli, srv, cw
+		if !c2s {
+			snd, rcv, sndW = srv, cli, sw
+		}
+		var wireOut []byte
+		afterHS := false
+		sndW.TapOut(func(b []byte) {
+			if afterHS {
+				wireOut = append(wireOut, b...)
+			}
+		})
+		var e1, e2, werr error
+		var pn1, pn2 *hx.PanicInfo
+		d := hub.GoAll(func() {
+			pn1 = hx.Try(func() {
+				if e1 = snd.Handshake(); e1 != nil {
+					return
+				}
+				// wait for the peer's Finished flight to be consumed: one round trip of data
+				buf := make([]byte, 16)
+				if !c2s {
+					// server sends first in this direction only after the client's first byte
+					snd.Read(buf[:1])
+				}
+				afterHS = true
+				for k := 0; k < okWrites; k++ {
+					if _, err := snd.Write(bytes.Repeat([]byte{byte(k)}, 40+k)); err != nil {
+						werr = err
+						return
+					}
+				}
+				sndW.FailNextWrite()
+				_, werr = snd.Write(bytes.Repeat([]byte{0xEE}, 300))
+				snd.Close()
+			})
+		}, func() {
+			pn2 = hx.Try(func() {
+				if e2 = rcv.Handshake(); e2 != nil {
+					return
+				}
+				if !c2s {
+					rcv.Write([]byte{1})
+				}
+				buf := make([]byte, 1024)
+				for {
+					if _, err := rcv.Read(buf); err != nil {
+						break
+					}
+				}
+				rcv.Close()
+			})
+		})
+		<-d[0]
+		<-d[1]
+		if pn1 != nil || pn2 != nil {
+			t.Fatalf("panic: %v %v", pn1, pn2)
+		}
+		if e1 != nil || e2 != nil {
+			t.Fatalf("harness: handshake failed: %v %v", e1, e2)
+		}
+		if werr == nil {
+			t.Fatalf("Write returned success although the transport reported a failure")
+		}
+		// explicit nonces of every record header visible on the wire after the handshake (complete or cut)
+		seen := map[string]int{}
+		off, idx := 0, 0
+		for off+13 <= len(wireOut) {
+			l := int(wireOut[off+3])<<8 | int(wireOut[off+4])
+			nonce := fmt.Sprintf("%x", wireOut[off+5:off+13])
+			if j, dup := seen[nonce]; dup {
+				t.Fatalf("after a failed transport write the sender protected two records (#%d and #%d of the direction) under the same explicit nonce %s (same key: GCM nonce reuse)", j, idx, nonce)
+			}
+			seen[nonce] = idx
+			idx++
+			if off+5+l > len(wireOut) {
+				// the cut record: what follows it on the wire starts right after the bytes that were forwarded
+				off = off + (5+l)/2
+				continue
+			}
+			off += 5 + l
+		}
+		if idx < okWrites+2 {
+			t.Fatalf("harness: only %d record headers seen after the handshake (want >= %d)", idx, okWrites+2)
+		}
+		R.Case(true, hx.HashKey("wf", i), "write_failure_then_close")
+	}
+}
+
+// shortRand hands out at most n bytes per Read call, as an io.Reader may (a pipe, a hardware source, a chunked DRBG).
+type shortRand struct {
+	r io.Reader
+	n int
+}
+
+func (s shortRand) Read(p []byte) (int, error) {
+	if len(p) > s.n {
+		p = p[:s.n]
+	}
+	return s.r.Read(p)
+}
+
+// with a randomness source that returns short reads the sessions must still work, and every explicit CBC IV must be
+// filled completely with fresh bytes: no two IVs of a direction may share their last 12 (or first 12) bytes
+func TestC07_ShortReadingRand(t *testing.T) {
+	p := tlsx.GetPKI()
+	for i := 0; i < hx.N(8, 100); i++ {
+		suite := []uint16{tlsx.GMECCSM4CBCSM3, tlsx.GMECCSM4GCMSM3, 0xc014}[i%3]
+		ccfg, scfg := configs(sess{Suite: suite}, fmt.Sprint("sr", i))
+		per := 1 + i%7
+		ccfg.Rand, scfg.Rand = shortRand{ccfg.Rand, per}, shortRand{scfg.Rand, per}
+		data := make([]byte, 40*12)
+		gen.Fill(data, uint64(i))
+		r := tlsx.Run(ccfg, scfg, tlsx.Script{ClientSend: data, ClientFrags: []int{40}, ServerSend: data, ServerFrags: []int{40}})
+		desc := fmt.Sprintf("suite %x, Config.Rand returns at most %d bytes per call: %s", suite, per, r.Describe())
+		if r.Client.Panic != nil || r.Server.Panic != nil {
+			t.Fatalf("panic\n%s", desc)
+		}
+		if r.Client.HSErr != nil || r.Server.HSErr != nil || !bytes.Equal(r.Server.Received, data) || !bytes.Equal(r.Client.Received, data) {
+			t.Fatalf("session failed with a short-reading randomness source\n%s", desc)
+		}
+		if suite == tlsx.GMECCSM4CBCSM3 {
+			d, err := rgmssl.Decode(r.Log, p.SrvEnc.SM2D, nil)
+			if err != nil {
+				t.Fatalf("decoder: %v\n%s", err, desc)
+			}
+			for _, recs := range [][]rgmssl.RecordInfo{d.ClientRecs, d.ServerRecs} {
+				tails, heads := map[string]int{}, map[string]int{}
+				for k, ri := range recs {
+					if len(ri.Explicit) != 16 {
+						continue
+					}
+					tl, hd := string(ri.Explicit[4:]), string(ri.Explicit[:12])
+					if j, dup := tails[tl]; dup {
+						t.Fatalf("the explicit IVs of records %d and %d share their last 12 bytes (%x / %x): the IV is not filled with fresh randomness when the source returns short reads\n%s", j, k, recs[j].Explicit, ri.Explicit, desc)
+					}
+					if j, dup := heads[hd]; dup {
+						t.Fatalf("the explicit IVs of records %d and %d share their first 12 bytes\n%s", j, k, desc)
+					}
+					tails[tl], heads[hd] = k, k
+				}
+			}
+		}
+		R.Case(true, hx.HashKey("shortrand", i), "short_reading_rand")
 	}
 }
